@@ -205,7 +205,7 @@ func otherGroupCompare(prop, sigPrefix string, changed int) func(i int, sp scanP
 }
 
 func TestC12Twin(t *testing.T) {
-	p := &world.Profile{Name: "isolation-twin", MinGroups: 2, MaxGroups: 3, Dry: 1, Auto: 1, Default: 1, MaxInit: 6, SmallGraces: true, Steps: 30, Weights: twinWeights()}
+	p := &world.Profile{Name: "isolation-twin", OwnNodesOnly: true, MinGroups: 2, MaxGroups: 3, Dry: 1, Auto: 1, Default: 1, MaxInit: 6, SmallGraces: true, Steps: 30, Weights: twinWeights()}
 	col := newCollector(t, "C12", "metamorphic twin: the recorded history is replayed on a world that differs only inside one group (its pods multiplied, its thresholds/rates changed, its nodes pre-tainted); every other group's writes must be identical scan by scan; non-trivial = a scan in which an unchanged group acts while the changed group's own actions differ between the runs")
 	rapid.Check(t, func(rt *rapid.T) {
 		runTwin(rt, &twinOpts{prop: "C12", profile: p, choose: func(rt *rapid.T, pw *world.World, scans []*world.ScanRecord) *perturbation {
@@ -263,7 +263,7 @@ func TestC12Twin(t *testing.T) {
 }
 
 func TestC11Twin(t *testing.T) {
-	p := &world.Profile{Name: "dry-twin", MinGroups: 2, MaxGroups: 3, Dry: 0, Auto: 1, Default: 1, MaxInit: 6, SmallGraces: true, Steps: 30, Weights: twinWeights()}
+	p := &world.Profile{Name: "dry-twin", OwnNodesOnly: true, MinGroups: 2, MaxGroups: 3, Dry: 0, Auto: 1, Default: 1, MaxInit: 6, SmallGraces: true, Steps: 30, Weights: twinWeights()}
 	col := newCollector(t, "C11", "metamorphic twin: the recorded history is replayed with dry mode enabled on one group only; the other groups' writes must be identical scan by scan and the dry group must write nothing; non-trivial = a scan in which the flipped group wrote in the primary run while another group acted")
 	rapid.Check(t, func(rt *rapid.T) {
 		runTwin(rt, &twinOpts{prop: "C11", profile: p, choose: func(rt *rapid.T, pw *world.World, scans []*world.ScanRecord) *perturbation {
